@@ -298,7 +298,7 @@ theorem lifetimes_keep_rooted (me : Key) (g : List (Key × Hash)) (ls : List (Li
       ∀ ls evs, the attest outputs of all lifetimes together contain no metadata hash twice.
   It is FALSE for the code as it is (known finding `should_sign:attested-twice-after-restart`): the only persistent
   record is the node's own Attestations row, which `INSERT OR IGNORE` drops when a third party's row for the same
-  (subject, metadata) exists.  Proved part: `attests_each_metadata_once_per_lifetime`.  Witness of the negation:
+  (subject, metadata) exists.  Proved part: `attests_each_metadata_once_partial`.  Witness of the negation:
   lifetime 1 attests metadata 12 (third party's attestation stored first), the object is restarted, the user registers
   the hash again, the old disclosure is replayed, and metadata 12 is attested a second time.
 -/
@@ -361,5 +361,33 @@ theorem tokens_handed_out_existed_when_opened (g : List (Key × Hash)) (s0 : Nod
     simp only [Option.some.injEq] at hperm
     rw [hl, Option.getD_some, hperm, htake] at hsub
     exact hsub
+
+/--
+  **The database guard.**  In ANY state — any lifetime, any database an earlier object left behind — if the
+  Attestations table holds an attestation over metadata `mp` whose signature is first found in a row naming this node as
+  authority (what `get_attestations_over` + `get_authority` see), no event makes the node attest `mp` again.  Together
+  with `attests_each_metadata_once_partial` this is the cross-restart half of "not attested already" that the code does
+  deliver (own row stored); the other half is the known finding (`attested_again_after_restart_witness`).
+-/
+theorem own_stored_row_blocks_attestation (now : Nat) (s : Node) (e : Event) (q : Key) (mp : Hash)
+    (hrow : attestedInDb s.attRows s.me mp = true) : Out.attest q mp ∉ (step now s e).2 := by
+  intro h
+  cases e with
+  | addKnown l raw padded name key md => simp [step] at h
+  | attestMsg p a => simp [step] at h
+  | requestMissing p k => simp [step] at h
+  | advertise to tok md ml => simp [step] at h
+  | selfAdvertise tok => simp [step] at h
+  | disclosure p msg order =>
+    simp only [step] at h
+    obtain ⟨m, j, s', hid, hss, hpre, hme⟩ := received_attest_db h
+    have := shouldSign_db hss
+    rw [hme, hid] at this
+    rw [attestedInDb_mono hpre s.me mp hrow] at this
+    exact absurd this (by decide)
+
+/-- the node's own row for metadata 12 is in the table (left by an earlier lifetime): refused; without it: attested -/
+example : (step 400000 { (run (init 1 [(1, 0), (2, 1)]) exPre).1 with attRows := [⟨2, 1, ownAtt 1 12⟩] }
+    (.disclosure 2 exMsg [12])).2 = [] := by decide
 
 end Ipv8.C17
